@@ -416,6 +416,61 @@ def container_field_validator_stream(ctx, res):
                                             "against every loaded entry", case)
 
 
+def catalogue_chain_stream(ctx, res):
+    """several validators of the catalogue (implemented identically by harness and model) registered on one field — the first through
+    the constructor or the decorator, the others through the decorator — against the model's `chain` (Cinco/Field/Chain.lean,
+    theorems in Props/C11b.lean): same verdict and same value for every input, so order and threading are as registered. The direct
+    oracle: the verdict is what applying the catalogue functions one after the other gives."""
+    import cincoconfig as cc
+    from cincoconfig.support import validator as register
+    import props.c05 as c05
+    tmp = ctx.tmpdir()
+    plans = [("string", ["upper", "short"], F.STR_POOL[:40] + ["#note", "abcdef", "ABCDEFG"]), ("string", ["short", "upper"], F.STR_POOL[:40] + ["straße", "ßßßß"]),
+             ("string", ["blank", "upper", "short"], ["#c", "# long comment", "keep", "", "abcdefg"]), ("string", ["upper", "reject"], ["a", ""]),
+             ("string", ["reject", "upper"], ["a"]), ("string", ["upper", "upper"], ["ab", "ß"]),
+             ("int", ["clamp0", "nonneg"], [-5, -1, 0, 3, "-7", "x", 2.5]), ("int", ["nonneg", "clamp0"], [-5, -1, 0, 3, "-7"]),
+             ("int", ["clamp0", "nonneg", "clamp0"], [-2, 2]), ("int", ["typeerr", "clamp0"], [1]), ("int", ["clamp0", "keyerr"], [1, -1]),
+             ("float", ["nonneg", "nonneg"], [-0.5, 0.0, 1.5, "2.5", -1])]
+    reqs, pend = [], []
+    for kind, names, values in plans:
+        for first_by in ("ctor", "decorator"):
+            f = {"k": kind, "required": False}
+            fld = F.build_field(dict(f, custom=names[0]) if first_by == "ctor" else f, tmp)
+            for nme in (names[1:] if first_by == "ctor" else names):
+                register(fld)(F.CATALOGUE[nme])
+            s = cc.Schema()
+            s.x = fld
+            cfg = s()
+            wf = F.wire_field(dict(f, custom="+".join(names)), tmp)
+            for v in values:
+                got = c05.outcome(lambda: fld.validate(cfg, v))
+                # direct: the catalogue functions one after the other on the field's own result
+                base = F.build_field(f, tmp)
+                want = c05.outcome(lambda: base.validate(cfg, v))
+                for nme in names:
+                    if want[0] != "ok":
+                        break
+                    want = c05.outcome(lambda: F.CATALOGUE[nme](cfg, want[1]))
+                case = {"stream": "catalogue-chain", "kind": kind, "registered": names, "first_by": first_by, "value": F.enc_val(v)}
+                res.case(stable(case), kind="catalogue-chain:%d" % len(names))
+                if (got[0] == "ok") != (want[0] == "ok") or (got[0] == "ok" and not c05.same(got[1], want[1])):
+                    res.violate("C11:registered-validator-not-run", "validating through a field with several registered validators is not running each of them, in "
+                                "registration order, on its predecessor's result", dict(case, got=[got[0], F.enc_val(got[1]) if got[0] == "ok" else got[1]],
+                                                                                     want=[want[0], F.enc_val(want[1]) if want[0] == "ok" else want[1]]))
+                if F.modelled(dict(f, custom="upper") if "upper" in names else f, [v]):       # (the model's case mapping covers its alphabet only)
+                    reqs.append({"cmd": "field.validate", "field": wf, "env": F.env_tables(f, [v] + ([got[1]] if got[0] == "ok" else []), tmp), "value": F.enc_val(v)})
+                    pend.append((case, got))
+    replies = ctx.model(reqs)
+    if replies is not None:
+        for (case, got), r in zip(pend, replies):
+            res.traces += 1
+            o = r.get("ok")
+            if o is None:
+                res.disagree("C11.chain.driver", case, impl=None, model=r)
+            elif (o.get("out") == "ok") != (got[0] == "ok") or (got[0] == "ok" and F.canon_val(o.get("value")) != F.canon_val(F.enc_val(got[1]))):
+                res.disagree("C11.chain", case, impl=[got[0], F.enc_val(got[1]) if got[0] == "ok" else got[1]], model=o)
+
+
 def env_required_stream(ctx, res):
     """required fields bound to an environment variable, with the variable in each of its states (unset, set but empty, set and
     valid) and a tree that omits the field or gives it: a load / validation that returns means the field has a value; a variable that
@@ -551,6 +606,7 @@ def run(ctx, n_quick=250, n_thorough=8000):
     guard(res, "C11", multi_validator_stream, ctx, res)
     guard(res, "C11", env_required_stream, ctx, res)
     guard(res, "C11", container_field_validator_stream, ctx, res)
+    guard(res, "C11", catalogue_chain_stream, ctx, res)
     return res
 
 
